@@ -39,7 +39,7 @@ def make_env(M, n, computer, gap, budget=None, initial=None, cls="auto"):
     return env, gen
 
 
-def put_env_state(M, env, n, v, initial_ids, tag=""):
+def put_env_state(M, env, n, v, initial_ids, tag="", chosen=None):
     """Bring env into an arbitrary EnvInv state for the hidden game v: every explorable coalition c is known
     iff k_c (symbolic), known values are v's, bounds are the computer's output, steps_taken = #chosen."""
     k = {}
@@ -48,7 +48,7 @@ def put_env_state(M, env, n, v, initial_ids, tag=""):
         if c in initial_ids:
             k[c] = True
         else:
-            k[c] = M.bool(f"{tag}k{c}")
+            k[c] = M.bool(f"{tag}k{c}") if chosen is None else (c in chosen)
             M.put_row(g, c, k[c], v[c], M.const(0), M.const(0))
     g.compute_bounds()
     env.steps_taken = M.count([k[c] for c in range(1 << n) if c not in initial_ids])
@@ -213,3 +213,385 @@ def sc_env_step_unstep(M, n, computer, gap, action, budget=None):
     M.check("restore.steps_taken", t0 == M.val(env.steps_taken))
     M.check("unstep.returns_reward", M.val(res[1]) == r0)
     M.check("unstep.info", int(res[4]["chosen_coalition"]) == expl[action] and res[3] is False)
+
+
+# ---------------------------------------------------------------------------------------------
+# solvers (C13)
+
+def solver_package():
+    from pyvc import loader, stubs_misc
+    return loader.Package(stubs={"random": stubs_misc.random_stub(), "multiprocessing": stubs_misc.multiprocessing_stub()})
+
+
+def snapshot_env(M, env, n):
+    kn, lo, up = view(M, env, n)
+    return kn, lo, up, [M.val(x) for x in env.state], M.val(env.reward), M.val(env.steps_taken)
+
+
+def check_env_unchanged(M, tag, before, env, n):
+    kn0, lo0, up0, s0, r0, t0 = before
+    kn1, lo1, up1, s1, r1, t1 = snapshot_env(M, env, n)
+    for c in range(1 << n):
+        M.check(f"{tag}.known[{c}]", M.iff(kn0[c], kn1[c]))
+        M.check(f"{tag}.lower[{c}]", lo0[c] == lo1[c])
+        M.check(f"{tag}.upper[{c}]", up0[c] == up1[c])
+    for j in range(len(s0)):
+        M.check(f"{tag}.state[{j}]", s0[j] == s1[j])
+    M.check(f"{tag}.reward", r0 == r1)
+    M.check(f"{tag}.steps_taken", t0 == t1)
+
+
+@scenario
+def sc_solver(M, n, solver, chosen, computer="superadditive_cached", gap="exploitability"):
+    """A built-in solver at the environment state `chosen` (explorable ids already revealed), hidden game symbolic:
+    returns a currently valid action chosen by its rule (ties to the lowest index) and leaves the environment as found."""
+    solvers = M.mod("solvers")
+    init_ids = minimal(n)
+    env, gen = make_env(M, n, computer, gap)
+    v = gen.calls[-1]
+    put_env_state(M, env, n, v, init_ids, chosen=set(chosen))
+    expl = [c.id for c in env.explorable_coalitions]
+    valid = [j for j, c in enumerate(expl) if c not in chosen]
+    if not valid:
+        return
+    before = snapshot_env(M, env, n)
+    M.fork_selections()
+    s = solvers.SOLVERS[solver](None)
+    a = s.next_step(env)
+    M.fork_selections(False)
+    M.check("action.is_valid", int(a) in valid)
+    check_env_unchanged(M, "frame", before, env, n)
+    if solver in ("greedy", "greedy_worst"):
+        rew = {}
+        for j in valid:
+            rew[j] = M.val(env.step(j)[1])
+            env.unstep(j)
+        for j in valid:
+            if solver == "greedy":
+                M.check(f"greedy.maximal[{j}]", rew[int(a)] >= rew[j])
+                if j < int(a):
+                    M.check(f"greedy.lowest_index[{j}]", rew[j] < rew[int(a)])
+            else:
+                M.check(f"worst.minimal[{j}]", rew[int(a)] <= rew[j])
+                if j < int(a):
+                    M.check(f"worst.lowest_index[{j}]", rew[j] > rew[int(a)])
+    elif solver == "largest":
+        size = {j: popcount(expl[j]) for j in valid}
+        M.check("largest.rule", size[int(a)] == max(size.values()) and all(size[j] < size[int(a)] for j in valid if j < int(a)))
+
+
+def gap_of_knowledge(M, n, known_ids, v, gap):
+    """Spec: the gap of the incomplete game in which exactly `known_ids` are known with v's values (SA bounds)."""
+    k = {c: (c in known_ids) for c in range(1 << n)}
+    L = G.lower_spec(M, n, k, v)
+    U = G.upper_spec(M, n, k, v, L)
+    return gap_spec(M, n, gap, L, U)
+
+
+@scenario
+def sc_expected_greedy(M, n, max_steps, repetitions, gap="exploitability"):
+    """get_greedy_rewards: the sequence never repeats a coalition; row t holds, per sampled game, the gap after exactly
+    the first t coalitions of the sequence; every extension minimises the mean gap over all remaining candidates; the
+    mean curve is non-increasing (games of the class).  Requires max_steps <= number of explorable coalitions."""
+    greedy = M.mod("run.greedy")
+    init_ids = minimal(n)
+    env, gen = make_env(M, n, "superadditive_cached", gap)
+    before = len(gen.calls)
+    rows, seq = greedy.get_greedy_rewards(env, max_steps, repetitions, gap_function(M, gap), processes=1)
+    games = gen.calls[before:]
+    M.check("samples.drawn", len(games) == repetitions)
+    seq = [int(c) for c in seq]
+    expl = [c.id for c in env.explorable_coalitions]
+    M.check("sequence.no_repeats", len(set(seq)) == len(seq) == max_steps and all(c in expl for c in seq))
+    M.check("rows.shape", tuple(rows.shape) == (max_steps + 1, repetitions))
+    means = []
+    for t in range(max_steps + 1):
+        known = set(init_ids) | set(seq[:t])
+        tot = M.const(0)
+        for j, v in enumerate(games):
+            spec = gap_of_knowledge(M, n, known, v, gap)
+            M.check(f"row[{t},{j}].is_gap_after_prefix", M.val(rows[t, j]) == spec)
+            tot = tot + spec
+        means.append(tot / M.const(repetitions))
+    for t in range(max_steps):
+        M.check(f"curve.nonincreasing[{t}]", means[t + 1] <= means[t])
+        for cand in expl:
+            if cand in seq[:t]:
+                continue
+            known = set(init_ids) | set(seq[:t]) | {cand}
+            alt = M.sum_([gap_of_knowledge(M, n, known, v, gap) for v in games]) / M.const(repetitions)
+            M.check(f"extension.minimises_mean[{t},cand={cand}]", means[t + 1] <= alt)
+
+
+# ---------------------------------------------------------------------------------------------
+# exhaustive search (C11)
+from itertools import combinations as _comb
+
+
+@scenario
+def sc_act_sequence_gap(M, n, computer, gap, known, seq):
+    """_get_act_sequence_exploitability(game, full, seq, known, gap) returns (seq, gap(G)) where G has exactly known + seq
+    known with full's values and freshly computed bounds - whatever the incoming state of `game` (it is reset)."""
+    gp = M.mod("gameplay")
+    C = M.mod("coalitions").Coalition
+    from props.scenarios import complete_game, declare_game, make_incomplete
+    v = declare_game(M, n)
+    assume_class(M, n, v, computer)
+    full = complete_game(M, n, v)
+    g, k = make_incomplete(M, n, computer, v)          # arbitrary incoming state (symbolic knowledge, stale rows)
+    seq_c = [C(c) for c in seq]
+    known_c = [C(c) for c in known]
+    r_seq, r_gap = gp._get_act_sequence_exploitability(g, full, seq_c, known_c, gap_function(M, gap))
+    M.check("returns_sequence", r_seq is seq_c)
+    target = set(known) | set(seq)
+    if computer in ("superadditive", "superadditive_cached"):
+        check_gap_equals(M, "gap_of_exact_knowledge", n, gap, M.val(r_gap), *_LU(M, n, target, v))
+    kn = [M.val(x) for x in g.are_values_known()]
+    for c in range(1 << n):
+        M.check(f"knowledge_is_known_plus_sequence[{c}]", M.iff(kn[c], (c in target) or c == 0))
+
+
+def _LU(M, n, known_ids, v):
+    k = {c: (c in known_ids) for c in range(1 << n)}
+    L = G.lower_spec(M, n, k, v)
+    return L, G.upper_spec(M, n, k, v, L)
+
+
+@scenario
+def sc_meta_game(M, n, gap, meta):
+    """MetaGame.get_value(meta-coalition) is the gap of the incomplete game in which exactly the minimal information plus
+    the selected coalitions is known; get_values agrees; the caller's incomplete game is not touched."""
+    mg = M.mod("meta_game")
+    C = M.mod("coalitions").Coalition
+    game_m, bounds = M.mod("game"), M.mod("bounds")
+    from props.scenarios import complete_game, declare_game, make_incomplete
+    v = declare_game(M, n)
+    assume_class(M, n, v, "superadditive")
+    full = complete_game(M, n, v)
+    inc, k = make_incomplete(M, n, "superadditive_cached", v)
+    before = [inc._values[c, j] for c in range(1 << n) for j in range(3)]
+    m = mg.MetaGame(full, inc, gap_function(M, gap))
+    non_min = [c for c in range(1 << n) if c not in minimal(n)]
+    M.check("players_are_non_minimal", [p.id for p in m.players] == non_min and m.number_of_players == len(non_min))
+    val = M.val(m.get_value(C(meta)))
+    inner = {non_min[i] for i in range(len(non_min)) if meta >> i & 1}
+    check_gap_equals(M, "value_is_gap_of_knowledge", n, gap, val, *_LU(M, n, set(minimal(n)) | inner, v))
+    vals = m.get_values([C(meta), C(0)])
+    M.check("get_values_agrees", M.val(vals[0]) == val)
+    check_gap_equals(M, "empty_meta_coalition", n, gap, M.val(vals[1]), *_LU(M, n, set(minimal(n)), v))
+    after = [inc._values[c, j] for c in range(1 << n) for j in range(3)]
+    M.check("callers_game_untouched", M.and_(*[a == b for a, b in zip(before, after)]))
+
+
+@scenario
+def sc_search(M, n, max_size, gap="exploitability", start=()):
+    """get_exploitabilities_of_action_sequences (assumed starmap contract): one entry per subset of the unknown
+    coalitions of size <= max_size, each exactly once, by increasing size, carrying the gap of exactly that knowledge."""
+    gp = M.mod("gameplay")
+    C = M.mod("coalitions").Coalition
+    game_m, bounds = M.mod("game"), M.mod("bounds")
+    from props.scenarios import complete_game, declare_game
+    v = declare_game(M, n)
+    assume_class(M, n, v, "superadditive")
+    full = complete_game(M, n, v)
+    g = game_m.IncompleteCooperativeGame(n, bounds.BOUNDS["superadditive_cached"])
+    known = sorted(set(minimal(n)) | set(start))
+    g.set_known_values([v[c] for c in known], [C(c) for c in known])
+    res = list(gp.get_exploitabilities_of_action_sequences(g, full, gap_function(M, gap), max_size=max_size, processes=3))
+    unknown = [c for c in range(1 << n) if c not in known]
+    lim = len(unknown) if max_size is None else max_size
+    expected = [list(cmb) for size in range(lim + 1) for cmb in _comb(unknown, size)]
+    got = [[c.id for c in seq] for seq, _ in res]
+    M.check("enumeration.each_subset_once_by_size", got == expected)
+    for (seq, val), ids in zip(res, expected):
+        check_gap_equals(M, f"gap[{','.join(map(str, ids))}]", n, gap, M.val(val), *_LU(M, n, set(known) | set(ids), v))
+
+
+@scenario
+def sc_best_states(M, n, max_steps, repetitions, gap="exploitability"):
+    """get_best_exploitability: for each size s <= max_steps, row s is the gap column (over the sampled games) of a reveal
+    set of size s with minimal mean among ALL sets of that size, best_actions[s] is that set; hence no evaluated
+    strategy is better at any step, and the mean curve is non-increasing (class)."""
+    bs = M.mod("run.best_states")
+    init_ids = minimal(n)
+    env, gen = make_env(M, n, "superadditive_cached", gap)
+    before = len(gen.calls)
+    rows, acts = bs.get_best_exploitability(env, max_steps, repetitions, gap_function(M, gap), processes=2)
+    games = gen.calls[before:]
+    M.check("samples.drawn", len(games) == repetitions)
+    expl = [c.id for c in env.explorable_coalitions]
+    M.check("shape", tuple(rows.shape) == (max_steps + 1, repetitions) and len(acts) == max_steps + 1)
+    means = []
+    for s in range(max_steps + 1):
+        ids = [int(c) for c in acts[s]]
+        M.check(f"set[{s}].is_a_reveal_set_of_size_s", len(ids) == s == len(set(ids)) and all(c in expl for c in ids))
+        col = []
+        for j, v in enumerate(games):
+            spec = gap_of_knowledge(M, n, set(init_ids) | set(ids), v, gap)
+            M.check(f"row[{s},{j}].is_gap_of_reported_set", M.val(rows[s, j]) == spec)
+            col.append(spec)
+        mean = M.sum_(col) / M.const(repetitions)
+        means.append(mean)
+        for cmb in _comb(expl, s):
+            alt = M.sum_([gap_of_knowledge(M, n, set(init_ids) | set(cmb), v, gap) for v in games]) / M.const(repetitions)
+            M.check(f"optimal[{s}].vs[{','.join(map(str, cmb))}]", mean <= alt)
+    for s in range(max_steps):
+        M.check(f"curve.nonincreasing[{s}]", means[s + 1] <= means[s])
+
+
+# ---------------------------------------------------------------------------------------------
+# size-aggregated environment (C16)
+
+@scenario
+def sc_linear_env(M, n, size, computer="superadditive_cached", gap="exploitability", budget=None):
+    """ICG_Gym_Linear over the real ICG_Gym in an arbitrary invariant state: mask[k] <=> some explorable coalition of size k
+    is unknown; observation = per-size sum of the inner observation, length n; step(size) for an allowed size reveals
+    exactly one previously unknown coalition of that size (every tie-break explored), reports it and returns the inner
+    reward / done."""
+    lin_m = M.mod("icg_gym_linear")
+    init_ids = minimal(n)
+    env, gen = make_env(M, n, computer, gap, budget)
+    v = gen.calls[-1]
+    k = put_env_state(M, env, n, v, init_ids)
+    expl = [c.id for c in env.explorable_coalitions]
+    lin = lin_m.ICG_Gym_Linear(env)
+    norm, _ = G.normalised(M, n, v)
+    mask = [M.val(x) for x in lin.action_masks()]
+    obs = [M.val(x) for x in lin.state]
+    M.check("mask.length", len(mask) == n)
+    M.check("observation.length", len(obs) == n)
+    for s in range(n):
+        of_size = [c for c in expl if popcount(c) == s]
+        M.check(f"mask[{s}]", M.iff(mask[s], M.or_(*[M.not_(k[c]) for c in of_size])))
+        M.check(f"observation[{s}]", obs[s] == M.sum_([M.ite(k[c], norm[c], M.const(0)) for c in of_size]))
+    M.check("reward_is_inner", M.val(lin.reward) == M.val(env.reward))
+    M.check("done_is_inner", M.iff(M.val(lin.done), M.val(env.done)))
+    # step with an allowed size
+    M.assume(mask[size])
+    res = lin.step(size)
+    M.check("step.returns_5_tuple", len(res) == 5)
+    revealed = int(res[4]["chosen_coalition"])
+    M.check("step.reveals_coalition_of_that_size", revealed in expl and popcount(revealed) == size)
+    M.check("step.was_unknown", M.not_(k[revealed]))
+    k2 = dict(k)
+    k2[revealed] = True
+    kn, lo, up = view(M, env, n)
+    for c in range(1 << n):
+        M.check(f"step.knowledge[{c}]", M.iff(kn[c], k2[c]))
+        M.check(f"step.value[{c}]", M.implies(k2[c], M.and_(lo[c] == v[c], up[c] == v[c])))
+    obs2 = [M.val(x) for x in res[0]]
+    M.check("step.observation.length", len(obs2) == n)
+    for s in range(n):
+        of_size = [c for c in expl if popcount(c) == s]
+        M.check(f"step.observation[{s}]", obs2[s] == M.sum_([M.ite(k2[c], norm[c], M.const(0)) for c in of_size]))
+    M.check("step.reward_is_inner", M.val(res[1]) == M.val(env.reward))
+    M.check("step.done_is_inner", M.iff(M.val(res[2]), M.val(env.done)))
+    M.check("step.truncated_false", res[3] is False)
+
+
+@scenario
+def sc_linear_reset(M, n, computer="superadditive_cached", gap="exploitability"):
+    lin_m = M.mod("icg_gym_linear")
+    init_ids = minimal(n)
+    env, gen = make_env(M, n, computer, gap)
+    lin = lin_m.ICG_Gym_Linear(env)
+    k = put_env_state(M, env, n, gen.calls[-1], init_ids)
+    ncalls = len(gen.calls)
+    st, info = lin.reset()
+    M.check("reset.draws_new_game", len(gen.calls) == ncalls + 1 and info.get("game") is env.full_game)
+    st = [M.val(x) for x in st]
+    M.check("reset.observation.length", len(st) == n)
+    for s in range(n):
+        M.check(f"reset.observation[{s}]", st[s] == 0)
+    mask = [M.val(x) for x in lin.action_masks()]
+    for s in range(n):
+        M.check(f"reset.mask[{s}]", M.iff(mask[s], 2 <= s <= n - 1))
+
+
+# ---------------------------------------------------------------------------------------------
+# evaluate() (C12)
+
+def any_valid_policy(M):
+    """A solver stub: SOME currently valid action (every choice explored) - the contract C13 gives for every solver."""
+    def next_step(env):
+        m = env.action_masks()
+        valid = [j for j in range(len(m)) if M.is_true(m[j])]
+        if M.symbolic:
+            from pyvc import rng
+            next_step.trace.append(1)
+            return valid[rng.choose(len(valid), f"policy{len(next_step.trace)}")]
+        return valid[int(M.int(f"policy{len(next_step.trace)}", lo=0)) % len(valid)]
+    next_step.trace = []
+    return next_step
+
+
+@scenario
+def sc_eval_one(M, n, limit, computer="superadditive_cached", gap="exploitability", budget=None):
+    """eval_one: row 0 = gap at the minimal information; row t+1 = gap after the t-th chosen coalition; the action row holds
+    the ids actually revealed (distinct, explorable); after `done` the remaining cells stay 0."""
+    ev = M.mod("evaluation")
+    init_ids = minimal(n)
+    env, gen = make_env(M, n, computer, gap, budget)
+    policy = any_valid_policy(M)
+    seen = []
+
+    def after_reset(e):
+        seen.append(gen.calls[-1])
+
+    expl_row, act_row = ev.eval_one(policy, env, limit, gap_function(M, gap), after_reset)
+    M.check("after_reset.called_once", len(seen) == 1)
+    v = seen[0]
+    expl = [c.id for c in env.explorable_coalitions]
+    M.check("shapes", tuple(expl_row.shape) == (limit + 1,) and tuple(act_row.shape) == (limit,))
+    check_trajectory(M, n, gap, budget, limit, expl_row, act_row, v, expl, "")
+
+
+def check_trajectory(M, n, gap, budget, limit, expl_row, act_row, v, expl, tag):
+    init_ids = minimal(n)
+    check_gap_equals(M, f"{tag}row0.is_gap_at_minimal_information", n, gap, M.val(expl_row[0]), *_LU(M, n, set(init_ids), v))
+    known = set(init_ids)
+    ids = []
+    stopped = False
+    for t in range(limit):
+        a = M.val(act_row[t])
+        if stopped:
+            M.check(f"{tag}padding[{t}]", M.and_(a == 0, M.val(expl_row[t + 1]) == 0))
+            continue
+        cid = int(act_row[t]) if not M.symbolic else int(act_row[t].c)
+        ids.append(cid)
+        known.add(cid)
+        lo, up = _LU(M, n, set(known), v)
+        check_gap_equals(M, f"{tag}row[{t + 1}].is_gap_after_chosen", n, gap, M.val(expl_row[t + 1]), lo, up)
+        if (budget is not None and len(ids) >= budget) or len(ids) == len(expl):
+            stopped = True
+        elif M.is_true_or_none(M.and_(*[up[c] - lo[c] == 0 for c in range(1 << n)])):
+            stopped = True
+    M.check(f"{tag}actions.distinct_and_explorable", len(set(ids)) == len(ids) and all(c in expl for c in ids))
+
+
+@scenario
+def sc_evaluate(M, n, limit, repetitions, computer="superadditive_cached", gap="exploitability"):
+    """evaluate(..., processes=1): column j of both matrices is the trajectory of the j-th environment produced by the
+    environment generator (each with its own hidden game); shapes (limit+1, reps) and (limit, reps)."""
+    ev = M.mod("evaluation")
+    envs = []
+
+    def env_generator():
+        env, gen = make_env(M, n, computer, gap)
+        envs.append((env, gen))
+        return env
+
+    policy = any_valid_policy(M)
+    games = {}
+
+    def after_reset(e):
+        for env, gen in envs:
+            if env is e:
+                games[id(e)] = gen.calls[-1]
+
+    E_, A_ = ev.evaluate(policy, env_generator, repetitions, limit, gap_function(M, gap), 1, after_reset)
+    M.check("environments.one_per_repetition", len(envs) == repetitions and len(games) == repetitions)
+    M.check("shapes", tuple(E_.shape) == (limit + 1, repetitions) and tuple(A_.shape) == (limit, repetitions))
+    for j, (env, gen) in enumerate(envs):
+        expl = [c.id for c in env.explorable_coalitions]
+        check_trajectory(M, n, gap, None, limit, E_[:, j], A_[:, j], games[id(env)], expl, f"col{j}.")
